@@ -60,6 +60,27 @@ def run(ctx):
 
     for i, rng in ctx.cases("random", ctx.n(6000, 120000)):
         random_case(ctx, rng, part)
+    corpus(ctx, part)
+
+
+def corpus(ctx, part):
+    """Regression corpus: spectra (wave systems on a flat noise floor with a small secondary system
+    on a flank) whose watershed zones are several bins thick - found by search, rare in random draws
+    (about 1 in 1000-6000); every circular shift and three level counts of each."""
+    import os
+    z = np.load(os.path.join(os.path.dirname(os.path.dirname(os.path.abspath(__file__))), "corpus_thick_watershed.npz"))
+    names = sorted(z.files)
+    rec = ctx.rec
+    for k, rng in ctx.cases("corpus", len(names)):
+        spec = np.ascontiguousarray(z[names[k]], dtype=np.float32)
+        nth = spec.shape[1]
+        for ihmax in (100, 20, 1000):
+            for sh in ([0] + sorted(set(int(v) for v in rng.integers(1, nth, 3)))):
+                sp = np.ascontiguousarray(np.roll(spec, sh, axis=1))
+                lv, near = W.levels(sp, ihmax)
+                if lv is None or near:
+                    continue
+                judge(rec, "map_corpus", "corpus|%s|ihmax=%d" % (names[k][0], ihmax), sp, ihmax, lv, np.asarray(part(sp, ihmax)))
 
 
 def judge(rec, op, key, spec, ihmax, lv, lab):
@@ -81,7 +102,7 @@ def random_case(ctx, rng, part):
     nk = int(rng.integers(1, 41 if big else 13))
     nth = int(rng.integers(1, 41 if big else 13))
     ihmax = int(rng.choice(IHMAX))
-    kind = str(rng.choice(["int", "int", "real", "smooth", "plateau", "sparse"]))
+    kind = str(rng.choice(["int", "int", "real", "smooth", "plateau", "sparse", "floor", "floor", "quantised"]))
     if kind == "int":
         a = int(rng.integers(2, 8))
         spec = rng.integers(0, a, (nk, nth)).astype(np.float32)
@@ -96,6 +117,24 @@ def random_case(ctx, rng, part):
             dy = np.minimum(np.abs(y - cy), nth - np.abs(y - cy))
             spec += rng.uniform(0.2, 5) * np.exp(-((x - cx) / rng.uniform(0.7, 4)) ** 2 - (dy / rng.uniform(0.7, 4)) ** 2)
         spec = spec.astype(np.float32)
+    elif kind in ("floor", "quantised"):
+        # wave systems sitting on a flat noise floor / coarsely quantised densities: large plateaus
+        # whose watershed zones are several bins thick
+        if nk < 8 or nth < 8:
+            nk, nth = int(rng.integers(8, 41)), int(rng.integers(8, 41))
+        x = np.arange(nk)[:, None]
+        y = np.arange(nth)[None, :]
+        spec = np.zeros((nk, nth))
+        for _ in range(int(rng.integers(2, 5))):
+            cx, cy = rng.uniform(0, nk), rng.uniform(0, nth)
+            dy = np.minimum(np.abs(y - cy), nth - np.abs(y - cy))
+            spec += rng.uniform(0.2, 2) * np.exp(-0.5 * ((x - cx) / rng.uniform(0.8, 5)) ** 2 - 0.5 * (dy / rng.uniform(0.8, 6)) ** 2)
+        if kind == "floor":
+            spec = np.maximum(spec, float(rng.uniform(0.03, 0.4)))
+        else:
+            q = float(rng.choice([0.05, 0.1, 0.25]))
+            spec = np.round(spec / q) * q
+        spec = spec.astype(np.float32)
     elif kind == "plateau":
         spec = np.repeat(np.repeat(rng.integers(0, 4, ((nk + 2) // 3, (nth + 2) // 3)), 3, 0), 3, 1)[:nk, :nth].astype(np.float32)
     else:
@@ -103,6 +142,7 @@ def random_case(ctx, rng, part):
         for _ in range(int(rng.integers(1, 4))):
             spec[rng.integers(nk), rng.integers(nth)] = rng.integers(1, 5)
     spec = np.ascontiguousarray(spec)
+    nk, nth = spec.shape
     szc = "tiny" if nk * nth <= 16 else ("small" if nk * nth <= 144 else "large")
     key = "rnd|%s|%s|nk%s|nth%s|ihmax=%d" % (kind, szc, "1" if nk == 1 else ("2" if nk == 2 else "n"),
                                                "1" if nth == 1 else ("2" if nth == 2 else "n"), ihmax)
